@@ -16,7 +16,9 @@ EXPLANATION = (
     "teardown edge after send_message must have only transport causes. The last rule FAILS on today's tree for VersionedMessage::convert_value (a foreign "
     "payload) — recorded as known finding F3; (R6) the premise of the panicking arm of Channel::close on the client-driven path: check_close never answers Ok "
     "for an end that is already Closed and the CloseChannelEnd handler reaches Channel::close only on that Ok; (R7) the premises of the internal-key "
-    "expects — co-mutation of the call bookkeeping (C02-R4) and of the registries (C03-R1) — re-evaluated as obligations of this property. Not decided: panics behind internal-key expects and Channel::close's unreachable arms over all histories; hangs."
+    "expects — co-mutation of the call bookkeeping (C02-R4) and of the registries (C03-R1) — re-evaluated as obligations of this property; (R8) provenance of a handler's Err(()): it removes the sending connection, so the value "
+    "returned by each of the 27 Result-returning handlers may only stem from explicit Err/Ok constants and from sends to self.conns[id] (through ?, and/or/map "
+    "combinators and nested handlers) — never from a send to another connection. Not decided: panics behind internal-key expects and Channel::close's unreachable arms over all histories; hangs."
 )
 
 DIRECT = re.compile(r"^(req(\.[\w.]+)?|id|msg(\.[\w.]+)?)$")
@@ -194,6 +196,7 @@ def run(rep):
     # Channel::close panics (unreachable!()) when the named end is already Closed. A client reaches it through
     # CloseChannelEnd -> check_close == Ok -> remove_channel_end -> close: check_close must not answer Ok for a Closed end.
     r6(rep, prog, M)
+    r8(rep, prog, M)
 
     # ---- R7 premises of the internal-key expect()s -------------------------------------------------------
     # R1 classifies 30+ unwrapped lookups as keyed by values read from another broker map; they cannot panic only while
@@ -247,3 +250,62 @@ def r6(rep, prog, M):
     rce = [c for c in ch.calls if c.name == "remove_channel_end"]
     ok = bool(rce) and all(broker.has_guard(ch, c.bb, r"^True=PartialEq::eq\(Channel::check_close\(.*\)\.0, CloseChannelEndResult::Ok\(\)\)$") for c in rce)
     rep.check(ok, "C11-R6", ch.def_, "close-only-after-check", "the CloseChannelEnd handler must reach Channel::close only when check_close answered Ok", detail={"sites": len(rce)})
+
+
+def r8(rep, prog, M):
+    """provenance of a handler's Err(()): only the sender's own faults"""
+    import proto
+    bd, _info, _hm = proto.broker_dispatch(prog)
+    todo = sorted(set(h for v in (bd or {}).values() for h in v if h in M))
+    done = set()
+    n = 0
+    COMB = ("from_residual", "branch", "and", "or", "and_then", "or_else", "map", "map_err", "into", "from")
+    while todo:
+        h = todo.pop()
+        if h in done:
+            continue
+        done.add(h)
+        b = M[h]
+        if not b.locals[0]["ty"].startswith("std::result::Result"):
+            continue
+        sends = {s.bb: s for s in broker.sends(b)}
+        seen = set()
+        bad = []
+
+        def walk(operand, depth):
+            if depth <= 0:
+                bad.append("depth")
+                return
+            for o in b.origins(operand):
+                if o in seen:
+                    continue
+                seen.add(o)
+                if o[0] == "call":
+                    cs = [x for x in b.calls if x.bb == o[1]]
+                    if not cs:
+                        continue
+                    c = cs[0]
+                    if o[1] in sends:
+                        tgt = sends[o[1]].target
+                        if not all(re.match(r"^self\.conns\[id\]", t) for t in tgt):
+                            bad.append("result of a send to %s" % sorted(tgt))
+                    elif c.name in COMB:
+                        for a in c.args:
+                            walk(a, depth - 1)
+                    elif (c.callee or "").startswith("aldrin_broker::broker::Broker::") and c.name in M:
+                        todo.append(c.name)
+                    elif (c.callee or "").endswith("ConnectionState::send"):
+                        ds = b.describe(c.args[0])
+                        if not all(re.match(r"^self\.conns\[id\]", t) for t in ds):
+                            bad.append("result of a send to %s" % sorted(ds))
+                    else:
+                        bad.append("result of %s" % mir.short_fn(c.callee))
+                elif o[0] in ("agg", "const", "param"):
+                    continue
+                else:
+                    bad.append(str(o[0]))
+        walk(["c", [0]], 8)
+        n += 1
+        rep.check(not bad, "C11-R8", b.def_, "err-provenance", "a handler's Err(()) removes the SENDING connection, so it may only stem from that connection's own faults (an explicit protocol violation or a failed send to it); here it can stem from: %s" % sorted(set(bad)),
+                  line=b.span, detail={"sources": sorted(set(bad))})
+    rep.floor("C11-R8", "handlers returning Result", n, 20)
